@@ -48,6 +48,7 @@ def units(tier):
     us.append({"shape": "fn"})
     us.append({"shape": "obj"})
     us.append({"shape": "list"})
+    us.append({"shape": "names"})
     if tier == "thorough":
         for op1 in D3OPS:
             for op2 in D3OPS:
@@ -301,6 +302,8 @@ def run_unit(unit, tier):
     cs = [(c,) + mk_ctx(c) for c in contexts(unit, tier)]
     if unit["shape"] == "list":
         return run_list(r)
+    if unit["shape"] == "names":
+        return run_names(r)
     seen = set()
     for t in trees_for(unit, tier):
         key = jkey(t)
@@ -312,6 +315,65 @@ def run_unit(unit, tier):
         check_tree(t, cs, r)
         if len(r.samples) < 2:
             r.sample({"tree": X.show(t), "contexts": len(cs)})
+    return r
+
+
+def run_names(r):
+    """attribute and item paths through members of ANY name, in particular names the expression classes might use themselves
+    (attributes, methods; the name-mangled privates _Path__name etc. are the classes' own storage and excluded) and names of context entries: this.<name>, this._.<name>, this[<name>], this.<name>.<name2>,
+    obj_.<name>, inside an operator and called as a function; value and eval(repr()) against plain lookups"""
+    import construct as C
+    names = ["a", "name", "field", "parent", "_name", "_field", "_parent", "__name", "__field", "__parent", "func", "operand", "op", "lhs", "rhs", "value",
+             "_", "_params", "_root", "_index", "_io", "_parsing", "_building", "_sizing", "_subcons", "items", "keys", "get", "update", "search", "__class__x",
+             "self", "this", "obj_", "len_", "x1", "if_", "class_"]
+    env = {"this": None, "obj_": None, "len_": len, "sum_": sum, "min_": min, "max_": max, "abs_": abs}
+    for n1 in names:
+        for n2 in (None, "a", n1, "_name", "_parent"):
+            inner = {n2: 7, "other": 1} if n2 is not None else 5
+            ctx = C.Container({n1: inner, "zz": 3})
+            ctx2 = C.Container(_=ctx, q=1)
+            forms = []
+            def add(label, expr, subject, want):
+                forms.append((label, expr, subject, want))
+            want = inner[n2] if n2 is not None else inner
+            try:
+                e_attr = getattr(C.this, n1)
+                e_up = getattr(getattr(C.this, "_"), n1)
+                e_obj = getattr(C.obj_, n1)
+            except Exception as ex:
+                r.violation("C11/names/attribute-raised", {"names": [n1, n2]}, "this.%s raised %r" % (n1, ex))
+                continue
+            e_item = C.this[n1]
+            try:
+                if n2 is not None:
+                    e_attr, e_up, e_obj, e_item = getattr(e_attr, n2), getattr(e_up, n2), getattr(e_obj, n2), e_item[n2]
+            except Exception as ex:
+                r.violation("C11/names/attribute-raised", {"names": [n1, n2]}, "this.%s.%s could not be formed: %r (this.%s is %r)" % (n1, n2, ex, n1, getattr(C.this, n1)))
+                continue
+            add("this.%s%s" % (n1, "." + n2 if n2 else ""), e_attr, ctx, want)
+            add("this[%r]%s" % (n1, "[%r]" % n2 if n2 else ""), e_item, ctx, want)
+            add("this._.%s%s" % (n1, "." + n2 if n2 else ""), e_up, ctx2, want)
+            if isinstance(want, int) and callable(e_attr) and not isinstance(e_attr, (str, int)):
+                add("this.%s... + 1" % n1, e_attr + 1, ctx, want + 1)
+                add("-(this.%s...)" % n1, -e_attr, ctx, -want)
+            for label, e, subject, w in forms:
+                r.states += 1
+                got = outcome(lambda: e(subject))
+                r.case(nontrivial=True, outcome="names", transitions=2, validated=2)
+                case = {"names": [n1, n2], "form": label}
+                if not callable(e) or got != ("ok", w):
+                    r.violation("C11/names/call-differs", case, "%s on a context where %r holds %r: %r, plain lookup gives %r" % (label, n1, inner, got, w))
+                    continue
+                rp = repr(e)
+                ev = outcome(lambda: eval(rp, dict(env, this=C.this, obj_=C.obj_))(subject))
+                if ev != ("ok", w):
+                    r.violation("C11/names/repr-differs", case, "repr(%s) = %s evaluates to %r, expected %r" % (label, rp, ev, w))
+            # obj_ form is called with (obj, ctx)
+            r.states += 1
+            got = outcome(lambda: e_obj(ctx, {})) if callable(e_obj) else ("exc", "not-an-expression:%r" % (e_obj,))
+            if got != ("ok", want):
+                r.violation("C11/names/call-differs", {"names": [n1, n2], "form": "obj_"}, "obj_.%s%s: %r, plain lookup %r" % (n1, "." + n2 if n2 else "", got, want))
+    r.sample({"tree": "attribute/item paths over %d member names x 5 second steps" % len(names)})
     return r
 
 
